@@ -68,7 +68,11 @@ Theorem step_down_bound_and_mutex_refuted_slow_call :
     nth_error (lis s) 0 = Some l /\ nth_error (lis s) 1 = Some l' /\
     llive l = true /\ llast l + ldur l * sec < now s /\
     lkey l = lkey l' /\ lown l <> lown l' /\ llive l' = true.
-Proof. eexists. eexists. eexists. split; [vm_compute; reflexivity|]. vm_compute. intuition congruence. Qed.
+Proof.
+  eexists. eexists. eexists. split; [vm_compute; reflexivity|].
+  split; [reflexivity|]. split; [reflexivity|]. (* instantiate l, l' before computing with them *)
+  vm_compute. repeat split; try reflexivity; discriminate.
+Qed.
 
 (* Without the cancel() on return (the code before bbb13e2ab) the statement is false: when a
    participant acquires a key for which it still holds a live context (possible after an external
@@ -194,7 +198,11 @@ Theorem mutex_shared_value_never_heals_refuted :
   exists s l l', run go_cfg (init 2) (shared_value_run 10) = Some s /\
     nth_error (lis s) 0 = Some l /\ nth_error (lis s) 1 = Some l' /\ lown l <> lown l' /\
     llive l = true /\ llive l' = true /\ llast l = now s /\ llast l' = now s /\ now s = 10000000000.
-Proof. eexists. eexists. eexists. split; [vm_compute; reflexivity|]. vm_compute. intuition congruence. Qed.
+Proof.
+  eexists. eexists. eexists. split; [vm_compute; reflexivity|].
+  split; [reflexivity|]. split; [reflexivity|]. (* instantiate l, l' before computing with them *)
+  vm_compute. repeat split; try reflexivity; discriminate.
+Qed.
 Example distinct_values_heal :
   exists s, run go_cfg (init 2)
     [AcqCall 0 1 10 20; InsEff 0 ONormal; InsRet 0; ExtDelete 1; AcqCall 1 1 11 20; InsEff 1 ONormal; InsRet 1;
